@@ -207,8 +207,10 @@ theorem validateBody_verdict (c : Ctx) (rec' : Rec) (hrec : ∀ s v p, Good (rec
   split at h
   · cases h; exact (okSet_nil _ _).symm
   · split at h
-    · cases h; exact (okSet_nil _ _).symm
-    · exact validateCore_verdict c rec' hrec s _ path conf rs h
+    · cases h
+    · split at h
+      · cases h; exact (okSet_nil _ _).symm
+      · exact validateCore_verdict c rec' hrec s _ path conf rs h
 
 /-- **Verdict formula of `Shape.validate`** — for every shape, focus list, evaluation path, option
     vector (waivers, abort, focus filter) and fuel: nested evaluations conform exactly when they
@@ -264,9 +266,11 @@ theorem runValidate_verdict (o : Opts) (sg dg : Graph) (rx : Regex) (focus : Lis
   simp only [] at h
   split at h
   · cases h
-  · have := validateAll_verdict _ _ _ conf rs h
-    rw [this]
-    exact allWaived_congr o _ rfl rfl rs
+  · split at h
+    · cases h
+    · have := validateAll_verdict _ _ _ conf rs h
+      rw [this]
+      exact allWaived_congr o _ rfl rfl rs
 
 theorem allWaived_mono (o o' : Opts) (rs : List Result)
     (hsub : ∀ t, t ∈ allowedSeverities o → t ∈ allowedSeverities o') :
